@@ -160,6 +160,11 @@ impl ActTask for Act {
             }
 
             if count == tasks.len() {
+                // an act that is completed from outside (a subflow act waits for its sub workflow) is not
+                // completed by its children, here as in `next`
+                if !task.is_auto_complete() {
+                    return Ok(false);
+                }
                 if !task.state().is_completed() {
                     task.set_state(TaskState::Completed);
                 }
